@@ -139,6 +139,12 @@ def run(tier: str) -> int:
     d.set_constraint(FixBondLength(0, 1))
     d.calc = EMT()
     systems.append(("emt_rigid_bond", d))
+    from quansino.constraints import FixRot as _FixRot
+
+    e_ = Atoms("CuAuPtCu", positions=[[0, 0, 0], [2.7, 0.1, 0], [1.3, 2.3, 0.2], [1.2, 0.9, 2.2]], cell=[20, 20, 20], pbc=False)
+    e_.set_constraint(_FixRot())
+    e_.calc = EMT()
+    systems.append(("emt_fixrot_mixed_masses", e_))
     nreal = 0
     for name, at in systems:
         from ase.md.velocitydistribution import MaxwellBoltzmannDistribution
@@ -222,9 +228,18 @@ def run(tier: str) -> int:
         if not np.array_equal(at.get_momenta(), -np.asarray(want) * (at.get_momenta() / -want)) and not np.allclose(at.get_momenta(), -want, rtol=4e-16):
             rep.violation("refresh:not-odd", "z -> -z does not mirror the momenta", {"T": T})
         # forced: kinetic temperature equals the target, with and without constrained atoms
-        for cons in (False, True):
+        for cons in (False, True, "fixrot"):
             at2 = at.copy()
-            if cons:
+            if cons == "fixrot":
+                # quansino's own rotation-removing constraint on a cluster of unequal masses (centre of mass != centroid)
+                from quansino.constraints import FixRot
+
+                I_ = at2.get_moments_of_inertia()
+                if n < 3 or I_.min() < 1e-2 * I_.max():
+                    continue  # (collinear or nearly so: three rotational degrees of freedom do not exist)
+
+                at2.set_constraint(FixRot())
+            elif cons:
                 at2.set_constraint(FixAtoms(indices=list(range(n // 2))))
             ctx2 = context_for(at2, seed=int(rs.randint(1, 10**6)))
             ctx2.temperature = T
@@ -232,7 +247,7 @@ def run(tier: str) -> int:
             tk = at2.get_temperature()
             rep.count(("forced", trial, cons))
             if abs(tk / T - 1) > 1e-9:
-                rep.violation(f"refresh:forced-temperature:{'constrained' if cons else 'free'}", f"forced refresh at {T} K gives a kinetic temperature of {tk:.6f} K ({'with' if cons else 'without'} fixed atoms)", {"T": T, "n": n})
+                rep.violation(f"refresh:forced-temperature:{'fixrot' if cons == 'fixrot' else ('constrained' if cons else 'free')}", f"forced refresh at {T} K gives a kinetic temperature of {tk:.6f} K ({'with FixRot' if cons == 'fixrot' else (('with' if cons else 'without') + ' fixed atoms')})", {"T": T, "n": n})
     # statistics with the real generator
     at = Atoms("Cu" * 50, positions=rs.rand(50, 3) * 9, cell=[20, 20, 20])
     at.set_masses(rs.uniform(1, 200, 50))
